@@ -242,3 +242,12 @@ c11_bad_radix!(c11_panic_to_radix_le_u8, any_u8x1, to_radix_le, 256);
 c11_bad_radix!(c11_panic_to_str_radix_i8, any_i8x1, to_str_radix, 36);
 c11_bad_radix!(c11_panic_to_radix_be_i8, any_i8x1, to_radix_be, 256);
 c11_bad_radix!(c11_panic_to_radix_le_i8, any_i8x1, to_radix_le, 256);
+
+// three digits (24 bits): the digit count is a multiple of 3, so "bits per radix digit divides BITS" and
+// "divides the digit width" differ (radix 8 and 64); power-of-two radices are cheap for CBMC
+c11_digits!(c11_le_u8x3_r8, any_u8x3, |x| u8x3(x), to_radix_le, true, 8, 8, 11);
+c11_digits!(c11_le_u8x3_r64, any_u8x3, |x| u8x3(x), to_radix_le, true, 64, 4, 7);
+c11_digits!(c11_le_u8x3_r16, any_u8x3, |x| u8x3(x), to_radix_le, true, 16, 6, 9);
+c11_digits!(c11_le_u8x3_r32, any_u8x3, |x| u8x3(x), to_radix_le, true, 32, 5, 8);
+c11_digits!(c11_be_u8x3_r8, any_u8x3, |x| u8x3(x), to_radix_be, false, 8, 8, 11);
+c11_digits!(c11_le_u8x3_r128, any_u8x3, |x| u8x3(x), to_radix_le, true, 128, 4, 7);
